@@ -80,7 +80,8 @@ package pdnode_coord
 //@   trusted asks the data nodes over HTTP (any answer possible); ghost(readyok, nil) counts the (true, nil) answers
 //@   ensures result0 && result1 == nil ==> ghost(readyok, nil) == old(ghost(readyok, nil)) + 1
 //@   ensures !(result0 && result1 == nil) ==> ghost(readyok, nil) == old(ghost(readyok, nil))
-//@   modifies ghost(readyok, nil)
+//@   ensures ghost(lastready, nil) == ite(result0 && result1 == nil, 1, 0)
+//@   modifies ghost(readyok, nil), ghost(lastready, nil)
 //@ func (dp *DataPlacement) allocNodeForNamespace(namespaceInfo *cluster.PartitionMetaInfo, currentNodes map[string]cluster.NodeInfo) (*cluster.NodeInfo, *cluster.CoordErr)
 //@   trusted read-only choice of a node
 //@   ensures result1 == nil ==> result0 != nil
@@ -154,3 +155,15 @@ package pdnode_coord
 //@   invariant 0 <= totalCnt && (totalCnt == 0 || len(sortedNodeNameList) >= 1)
 //@ loop 1
 //@   invariant 0 <= idx && len(combined) <= idx && (totalCnt == 0 || len(sortedNodeNameList) >= 1) && len(combined) <= totalCnt
+
+
+// adding a replacement replica while balancing (C18): a replica is added only right after ALL current replicas
+// answered "fully ready" (ghost(lastready, nil) is 1 exactly when the latest IsAllISRFullReady answer was (true, nil))
+//@ property C18
+//@ func (dp *DataPlacement) addNodeToNamespaceAndWaitReady(monitorChan chan struct{}, namespaceInfo *cluster.PartitionMetaInfo, nodeNameList []SortableStrings) (*cluster.PartitionMetaInfo, error)
+//@   opt abstract=select
+//@   opt only=ASSERT
+//@   opt autoloops
+//@   requires dp != nil && dp.pdCoord != nil && dp.pdCoord.register != nil && namespaceInfo != nil
+//@   callassert addNamespaceToNode ghost(lastready, nil) == 1
+//@   modifies *
